@@ -57,6 +57,11 @@ def projects():
                                           {"id": "team", "effort": 120, "alloc": ["a1", "a0", "s2"], "deps": ["p"]},
                                           {"id": "alt", "effort": 180, "alloc": ["a1"], "alt": ["ext", "s2"], "prio": 300},
                                           {"id": "alt2", "effort": 60, "alloc": ["ext"], "alt": ["a0"], "deps": ["q"]}]})
+    # tasks that stay unscheduled because nobody is allocated, although dates are TYPED on them or on their container
+    ps.append({"resources": R, "tasks": [T("a", 90), {"id": "n3", "effort": 180, "start": "2025-01-07-09:00", "end": "2025-01-08-12:00"},
+                                         {"id": "n4", "effort": 120, "sched": "alap", "end": "2025-01-10-17:00"},
+                                         {"id": "g", "start": "2025-01-08-09:00", "end": "2025-01-15-17:00", "children": [T("ok", 60, "r2"), {"id": "nobody", "effort": 240}]},
+                                         T("z", 30, deps=["a"])]})
     # the project starts at 09:00, inside working time: the first task's first booked slot is slot number 0
     ps.append({"start": "2025-01-06-09:00", "resources": R, "tasks": [T("a", 360), T("b", 120, "r2"), T("c", 240, deps=["a"])]})
     # one task per calendar day across a year end (dates whose ISO week-year / week number differ from the calendar year's)
